@@ -176,6 +176,13 @@ class FnTranslator:
 
     def emit_loop(self, placeholder, fix):
         """a loop reached through several inlined continuations is emitted once"""
+        # canonical binder numbers inside the loop (so that two inlined copies of one loop coincide)
+        seen = {}
+        def ren(mo):
+            if mo.group(0) not in seen:
+                seen[mo.group(0)] = '%s__%d' % (mo.group(1), len(seen) + 1)
+            return seen[mo.group(0)]
+        fix = re.sub(r'\b([a-z])__(\d+)\b', ren, fix)
         key = fix.replace(placeholder, '@SELF@')
         if key in self.loop_by_text:
             return self.loop_by_text[key]
@@ -319,6 +326,23 @@ class FnTranslator:
                 guards += g
                 parts.append(t)
             return guards, '(%s)' % (' && ' if isinstance(n.op, ast.And) else ' || ').join(parts), 'bool'
+        if isinstance(n, ast.Compare) and len(n.ops) == 1 and isinstance(n.ops[0], (ast.Is, ast.IsNot)) \
+                and isinstance(n.comparators[0], ast.Constant) and n.comparators[0].value is None:
+            g, t, ty = self.tr(n.left, env)
+            if t is None:
+                refuse('`is None` on a symbolic object', n)
+            if ty == 'optZ' or ty.startswith('opt '):
+                isn = '(match %s with None => true | Some _ => false end)' % t
+            else:
+                isn = 'false'                      # a value of a non-optional type is never None
+            return g, isn if isinstance(n.ops[0], ast.Is) else '(negb %s)' % isn, 'bool'
+        if isinstance(n, ast.Compare) and len(n.ops) == 1 and isinstance(n.ops[0], (ast.Eq, ast.NotEq)):
+            # int|None == int: None compares unequal, no TypeError
+            gl, tl, tyl = self.tr(n.left, env)
+            gr, tr_, tyr = self.tr(n.comparators[0], env)
+            if tyl == 'optZ' and tyr == 'Z' and tl is not None:
+                eq = '(match %s with None => false | Some n__ => n__ =? %s end)' % (tl, tr_)
+                return gl + gr, eq if isinstance(n.ops[0], ast.Eq) else '(negb %s)' % eq, 'bool'
         if isinstance(n, ast.Compare):
             cops = {ast.Lt: '<?', ast.LtE: '<=?', ast.Gt: '>?', ast.GtE: '>=?', ast.Eq: '=?'}
             operands = [n.left] + list(n.comparators)
@@ -376,6 +400,12 @@ class FnTranslator:
                     return g, '(Z.of_nat (length %s))' % t, 'Z'
                 refuse('len() of %s' % ty, n)
             if isinstance(n.func, ast.Name) and n.func.id == 'sum' and len(n.args) == 1 and not n.keywords \
+                    and not isinstance(n.args[0], ast.GeneratorExp) and 'sum' not in self.locals:
+                g, t, ty = self.tr(n.args[0], env)
+                if ty == 'list Z' and t is not None:
+                    return g, '(fold_left Z.add %s 0)' % t, 'Z'
+                refuse('sum() of %s' % ty, n)
+            if isinstance(n.func, ast.Name) and n.func.id == 'sum' and len(n.args) == 1 and not n.keywords \
                     and isinstance(n.args[0], ast.GeneratorExp) and 'sum' not in self.locals:
                 ge = n.args[0]
                 if len(ge.generators) != 1 or ge.generators[0].ifs or ge.generators[0].is_async \
@@ -389,6 +419,22 @@ class FnTranslator:
                 ge_g, ge_t, ge_ty = self.num(ge.elt, env2)
                 self.pure(ge_g, ge.elt)
                 return g, '(fold_left (fun acc__ %s => acc__ + %s) %s 0)' % (x, ge_t, t), 'Z'
+            if isinstance(n.func, ast.Name) and n.func.id in ('any', 'all') and len(n.args) == 1 and not n.keywords \
+                    and isinstance(n.args[0], ast.GeneratorExp) and n.func.id not in self.locals:
+                ge = n.args[0]
+                if len(ge.generators) != 1 or ge.generators[0].ifs or ge.generators[0].is_async \
+                        or not isinstance(ge.generators[0].target, ast.Name):
+                    refuse('generator expression shape', n)
+                g, t, ty = self.tr(ge.generators[0].iter, env)
+                if not ty.startswith('list ') or t is None:
+                    refuse('any/all over a non-list', n)
+                x = self.mangle(ge.generators[0].target.id)
+                env2 = env.bind(ge.generators[0].target.id, x, ty[5:])
+                ge_g, ge_t, ge_ty = self.tr(ge.elt, env2)
+                self.pure(ge_g, ge.elt)        # an element that can raise needs a config pattern for the whole call
+                if ge_ty != 'bool':
+                    refuse('any/all over non-bool elements', n)
+                return g, '(%s (fun %s => %s) %s)' % ('existsb' if n.func.id == 'any' else 'forallb', x, ge_t, t), 'bool'
             if isinstance(n.func, ast.Name) and n.func.id == 'max' and len(n.args) == 1 and not n.keywords \
                     and isinstance(n.args[0], ast.GeneratorExp) and 'max' not in self.locals:
                 ge = n.args[0]
@@ -561,6 +607,27 @@ class FnTranslator:
                 ast.fix_missing_locations(value)
             if not isinstance(target, ast.Name):
                 refuse('assignment to a non-local target %s' % ast.unparse(target), s)
+            if isinstance(s, ast.Assign) and isinstance(value, ast.BoolOp):
+                try:
+                    self.tr(value, env)
+                    impure = False
+                except Refuse:
+                    impure = True
+                if impure:
+                    # x = a and b (booleans; b can raise)  ==  if a: x = b  else: x = False      (dually for or)
+                    mk = lambda v: ast.copy_location(ast.Assign(targets=[ast.Name(id=target.id, ctx=ast.Store())], value=v, lineno=s.lineno), s)
+                    first, others = value.values[0], value.values[1:]
+                    rest_v = others[0] if len(others) == 1 else ast.BoolOp(op=value.op, values=others)
+                    g0, t0, ty0 = self.tr(first, env)
+                    if ty0 != 'bool':
+                        refuse('and/or on non-bool operands', s)
+                    if isinstance(value.op, ast.And):
+                        st = ast.If(test=first, body=[mk(rest_v)], orelse=[mk(ast.Constant(value=False))])
+                    else:
+                        st = ast.If(test=first, body=[mk(ast.Constant(value=True))], orelse=[mk(rest_v)])
+                    ast.copy_location(st, s)
+                    ast.fix_missing_locations(st)
+                    return self.block([st] + list(rest), env, ctx, k)
             if isinstance(s, ast.Assign) and isinstance(value, ast.IfExp):
                 # x = a if c else b   ==   if c: x = a  else: x = b
                 mk = lambda v: ast.copy_location(ast.Assign(targets=[ast.Name(id=target.id, ctx=ast.Store())], value=v, lineno=s.lineno), s)
